@@ -10,7 +10,7 @@ func init() {
 		ID: "C08", Level: "exploration",
 		Rule: "each run draws 2-4 served (+0-1 dialled) connections with 1-6 marked messages each, which handlers park, and then a schedule of {connect, deliver k bytes of a connection, release a parked handler, release a serve loop held at a yield point}; " +
 			"non-trivial = the engine had at least one step with two or more enabled actions; distinct = hash of the action-kind sequence",
-		Real: srvReal, Stubbed: srvStub,
+		Real: append(append([]string{}, srvReal...), "sm.StateMachine (CER/CEA, DWR/DWA handlers) and sm.Client with its watchdog, in the state-machine and Client scenarios", "SCTPConn reader/writer in the association scenario"), Stubbed: srvStub,
 		Assume: []string{"interleaving is explored at transport seams, handler entry/exit and the tagged yield points only"},
 		Scenarios: []*Scenario{
 			{Name: "serve", Weight: 6, Bubble: true, Run: func(e *Env) {
